@@ -340,6 +340,10 @@ func runC03(c *Ctx) {
 	checkOpaqueUDT(c, "R03g", []string{pSqlite})
 	c.Rule("R03k", ruleTextNoBackslash, 1)
 	checkNoBackslashInSqlite(c, "R03k")
+	c.Rule("R03n", ruleTextLikeEscape, 0)
+	checkLikeEscape(c, "R03n")
+	c.Rule("R03m", ruleTextDynRegex, 0)
+	checkDynRegex(c, "R03m")
 	c.Rule("R03l", ruleTextUnquoteOnly, 2)
 	checkUnquoteOnly(c, "R03l")
 	c.Rule("R03h", ruleTextMayWrapSymmetric, 5)
